@@ -4,8 +4,9 @@
 (*     the same program compiled under every permutation of its files and every source / reference   *)
 (*     assignment: acceptance must not change, and for an accepted program neither any file's         *)
 (*     compiled content (digest per path) nor the multiset of warnings                               *)
-(*  [ev |-> "rerun", stderr, request, exit]   repeated runs of the binary in fresh processes:        *)
-(*     byte-identical diagnostics, byte-identical generator requests, same exit status               *)
+(*  [ev |-> "rerun", stderr, request, exit, role_request_len, role_exit]   repeated runs of the      *)
+(*     binary in fresh processes: byte-identical diagnostics, byte-identical generator requests,     *)
+(*     same exit status; and one file moved from the sources to the references                       *)
 EXTENDS Naturals, Sequences, FiniteSets, TLC, Json, IOUtils
 Rec == ndJsonDeserialize(IOEnv.TRACE)
 VARIABLE l
@@ -17,7 +18,10 @@ PermOk(e) ==
   /\ \A i \in 1..Len(r) : r[i].accepted = r[1].accepted                              \* AcceptanceInvariantUnderPermutation
   /\ r[1].accepted => \A i \in 1..Len(r) : /\ r[i].files = r[1].files                 \* PerFileContentInvariant
                                            /\ r[i].warnings = r[1].warnings           \* WarningMultisetInvariant
-RerunOk(e) == AllEqual(e.stderr) /\ AllEqual(e.request) /\ AllEqual(e.exit)           \* SameBytesOnRerun
+RerunOk(e) == /\ AllEqual(e.stderr) /\ AllEqual(e.request) /\ AllEqual(e.exit)        \* SameBytesOnRerun
+              \* the last file listed as a source / as a reference: same exit status, and the generator is handed as much (every
+              \* file goes into the request whole, in the one list or the other)
+              /\ AllEqual(e.role_request_len) /\ AllEqual(e.role_exit)
 EventOk(e) == CASE e.ev = "perm" -> PermOk(e) [] e.ev = "rerun" -> RerunOk(e) [] OTHER -> FALSE
 Step == /\ l <= Len(Rec)
         /\ IF EventOk(Rec[l]) THEN TRUE ELSE TLCSet(1, Append(TLCGet(1), l))
